@@ -607,6 +607,7 @@ func main() {
 		defer pprof.StopCPUProfile()
 	}
 	debug.SetGCPercent(800)
+	debug.SetMemoryLimit(6 << 30) // soft limit: the collector works harder instead of letting the heap reach 9x the live data
 	os.Setenv("PATH", "/opt/veriftools/go1.27.0/bin:"+os.Getenv("PATH"))
 	if *qto == 0 {
 		*qto = 60000
